@@ -34,7 +34,7 @@ namespace fastscapelib
                 , m_filter_func(func)
             {
                 // iterate to the actual starting position (1st node that pass the filter test)
-                while ((!m_filter_func(m_grid, m_idx)) && (m_idx < m_grid.size()))
+                while ((m_idx < m_grid.size()) && (!m_filter_func(m_grid, m_idx)))
                 {
                     ++m_idx;
                 }
@@ -45,7 +45,7 @@ namespace fastscapelib
                 do
                 {
                     ++m_idx;
-                } while ((!m_filter_func(m_grid, m_idx)) && (m_idx < m_grid.size()));
+                } while ((m_idx < m_grid.size()) && (!m_filter_func(m_grid, m_idx)));
 
                 return *this;
             }
